@@ -8,6 +8,11 @@ LEVEL = "translation_validation"
 
 def run(chk, tier):
     e4.check(chk, ("traits",), tier)
+    # type_traits<Tag>::min_value()/max_value()/null_value() return value_type's limits: those come from the XML
+    # attribute or, when absent, from the generator's default tables, which must equal the SBE-derived constants
+    import gtab
+    gtab.check(chk, sbeppc_facts(), which=("keys", "literal"))
+    e4.check(chk, ("minmaxnull",), tier, only=None if tier == "thorough" else ["vprims_le", "vprims_be", "test_schema", "traits_test_schema"])
     witness.check_tag_predicates(chk, tier)
     n = chk.rule_counts.get("E4.traits", 0)
     chk.floor("trait entities", n, 800)
@@ -18,7 +23,8 @@ def run(chk, tier):
                      "name, id, description, since/deprecated (deprecated() exists iff the attribute does), presence (SBE "
                      "actual-presence rules), length, offset (block / composite relative), block_length, semantic type, "
                      "character encoding, enum values, choice indexes, encoding types, header/dimension tags, children tag "
-                     "lists in schema order; every tag is reachable at its documented path (name anchors). Type-level "
+                     "lists in schema order; min/max/null of every user type equal the XML attribute or the SBE default (generated "
+                     "limits, and the generator's default tables row by row against the library constants); every tag is reachable at its documented path (name anchors). Type-level "
                      "witnesses: exactly one tag-kind predicate holds per tag, traits_tag<value_type> round-trips."),
         rule_text="programs = schemas; cases = entities",
         extra_cov={"programs": chk.extra.get("programs", 0), "disagreements_checked": n})
